@@ -126,6 +126,36 @@ func cmdUUID(args []string) error {
 	defer wo.Flush()
 	defer wi.Flush()
 	r := newRng(envSeed()*7919 + 11)
+	// noise: while the values below are hashed, other goroutines hash OTHER values (long texts and blobs, nodes,
+	// predicates, triples) without pause — a UUID is the same on every call whatever else the process is hashing
+	// (shared scratch buffers are where that breaks)
+	stopNoise := make(chan struct{})
+	var noise sync.WaitGroup
+	for gi := 0; gi < 8; gi++ {
+		noise.Add(1)
+		go func(gi int) {
+			defer noise.Done()
+			big := strings.Repeat(string(rune('a'+gi)), 1<<16)
+			lt := mustLit(literal.Text, big)
+			lb := mustLit(literal.Blob, []byte(big[:1<<12]))
+			nn := mustNode("/noise", big[:300])
+			pp := mustTmp(big[:200], t0.Add(time.Duration(gi)))
+			tr, _ := triple.New(nn, pp, triple.NewLiteralObject(lt))
+			for {
+				select {
+				case <-stopNoise:
+					return
+				default:
+				}
+				safeU(lt.UUID)
+				safeU(lb.UUID)
+				safeU(nn.UUID)
+				safeU(pp.UUID)
+				safeU(tr.UUID)
+			}
+		}(gi)
+	}
+	defer func() { close(stopNoise); noise.Wait() }()
 	var vals []uval
 	emitV := func(v uval) int {
 		id := len(vals)
